@@ -49,6 +49,12 @@ def partitions(tier, seed):
             cfg = {"cc": cc, "enc": enc}
             parts.extend(size_variants(PROP, "C03", sp.rsp_key(), lab, data, tr, cfg=cfg))
             parts.extend(pair_variants(sp.rsp_key(), lab, data, tr, cfg, quick))
+    # synthetic types nesting regions deeper than any real type: every byte string up to N
+    from . import synth
+
+    for k in synth.keys():
+        for n in range(0, 9 if quick else 13):
+            parts.append(sp.S(PROP, "C03", k, n, budget=40 if quick else 200))
     from . import c03_unit
 
     parts.extend(c03_unit.partitions(tier, seed))
